@@ -229,6 +229,13 @@ def link_closure(ctx, cfg, cb, info, role, rule):
         ctx.ob(rule, cb["key"] + "#driver", UNKNOWN, "expected one call consuming the pipeline that contains the closure, found %d" % len(drivers), at=parent["at"], cfg=cfg)
         return
     drv = drivers[0]
+    if info.get("stop_returns"):
+        # the closure has steps that neither store nor count and answer with a stop value (Break / Err / None): in order only if the driver really
+        # stops on it - a try_* driver handed the closure itself (through `map` the pipeline would go on to the next slot and leave a hole)
+        direct = any(x == cval for x in resolved_args(ap, drv))
+        stops = drv.fn.split("::")[-1] in ("try_for_each", "try_fold", "try_rfold") and direct
+        ctx.ob(rule, cb["key"] + "#stops", stops, "the closure answers some steps with a stop value without storing or counting; the driver %s stops the traversal on it (a try_* driver given the closure itself): %s" % (
+            drv.fn.split("::")[-1], stops), at=parent["at"], cfg=cfg)
     slices = []
     for x in resolved_args(ap, drv):
         slices += find_in(x, lambda t: isinstance(t, tuple) and len(t) == 5 and t[0] == "V" and t[1] == "iter" and t[2] == "slice")
@@ -338,6 +345,18 @@ def elem_of_storage(t, depth=0):
     return None
 
 
+def _deep_atoms(p, depth=0):
+    """Atoms of a Poly, including those inside composite atoms (phi / cell arguments are not descended into)."""
+    out = set()
+    for x in p.atoms():
+        out.add(x)
+        if isinstance(x, tuple) and depth < 4:
+            for y in x[1:]:
+                if hasattr(y, "atoms"):
+                    out |= _deep_atoms(y, depth + 1)
+    return out
+
+
 def raw_write_discipline(ctx, cfg, body, rule):
     """Non-closure code: a raw write of a droppable element must be counted by a tracked owner's position
     (owner live) before any later foreign call; a write into storage no tracked owner governs followed by a foreign call is a leak window."""
@@ -367,7 +386,7 @@ def raw_write_discipline(ctx, cfg, body, rule):
                             gov = n
                     elif base == ("field", ("local", n), (o["array"],)):
                         gov = n
-            if gov is not None and not any(isinstance(x, tuple) and x and x[0] == "elemoff" for x in c.args[0][2].atoms()):
+            if gov is not None and not any(isinstance(x, tuple) and x and x[0] in ("elemoff", "enum_idx", "ridx") for x in _deep_atoms(c.args[0][2])):
                 # a slot addressed by explicit arithmetic (not the item of a traversal, whose order the loop / closure rules decide): it must be the
                 # slot the owner's position designates - the one the coming advance will claim - or the claimed range and the written slots part
                 from .absint import State
